@@ -139,7 +139,7 @@ def _case(draw, tier):
         # include directives first
         if scenario == "include_fault_only" and p == 0:
             inc = draw(st.sampled_from(["missing", "ext", "ext2", "outside", "outside_root", "outside_symlink", "dir", "nested",
-                                        "defines_task", "syntax", "runtime", "nonstr"]))
+                                        "defines_task", "syntax", "runtime", "runtime_noargs", "runtime_raise", "nonstr"]))
         elif scenario != "mixed":
             inc = draw(st.sampled_from(["none", "none", "ok", "ok_abs"]))
         else:
@@ -161,7 +161,7 @@ def _case(draw, tier):
             other = ["//p:" + eval(x) for x in all_names[1]] if p == 0 and npk == 2 else []
             dep_pool = list(dict.fromkeys(later + other + (["//%s:%s" % (pkg, eval(planned[-1]))] if i < n - 1 and planned[-1] != planned[i] else [])))
             fr = fault_rate
-            if scenario == "one_task_fault" and p == 0 and i == one_fault_at % n:
+            if scenario == "one_task_fault" and p == 0 and one_fault_at < 3 and i == one_fault_at % n:
                 fr = 1
             s = draw(_task_stmt([planned[i]], dep_pool, fr))
             if not uses_threads:
@@ -172,10 +172,14 @@ def _case(draw, tier):
             s["form"] = form
             stmts.append(s)
             # python-level fault statements, sometimes
-            if fault_rate < 10 ** 6 and draw(st.sampled_from(range(fault_rate * 3))) == 0:
+            if (fault_rate < 10 ** 6 and draw(st.sampled_from(range(fault_rate * 3))) == 0) or \
+               (scenario == "one_task_fault" and p == 0 and one_fault_at >= 3 and i == n - 1):
                 stmts.append({"t": "py", "code": draw(st.sampled_from(
                     ["x = 1 / 0", "raise ValueError('boom')", "import not_a_module_xyz", "undefined_name_zz",
-                     "def (:", "x = [", "assert False, 'nope'", "int('x')", "{}['missing']", "run_command()"]))})
+                     "def (:", "x = [", "assert False, 'nope'", "int('x')", "{}['missing']", "run_command()",
+                     "raise ValueError", "assert 1 == 2", "raise RuntimeError()", "raise KeyError", "raise Exception",
+                     "[][3]", "None.x", "import os; os.stat('/nonexistent/zz')", "raise OSError(2, 'x')",
+                     "def f(): return f()\nf()", "raise UnicodeError", "raise StopIteration"]))})
         # ordered so that the first planned name is defined first
         all_names[p] = [x for x in planned]
         files[pkg] = stmts
@@ -204,6 +208,8 @@ INC_FILES = {
     "defines_task": ("deft.cond", "run_command(name='inc', run='true')\n"),
     "syntax": ("syn.cond", "X = (1,\nY = 2 +\n"),
     "runtime": ("rt.cond", "X = 1\nY = X / 0\n"),
+    "runtime_noargs": ("rt0.cond", "X = 1\nassert X == 2\n"),
+    "runtime_raise": ("rt1.cond", "raise LookupError\n"),
 }
 
 
@@ -302,8 +308,8 @@ def file_verdict(case, pkg):
             if how == "outside" and pkg:
                 env.update({"OUT": 1})
                 continue   # ../outside.cond from package p stays inside the project
-            lab = "fault_in_included_file" if how in ("nested", "defines_task", "syntax", "runtime") else "fault_include"
-            return ("fault", lab, INC_FILES[how][0] if how in ("syntax", "runtime") else "COND")
+            lab = "fault_in_included_file" if how in ("nested", "defines_task", "syntax", "runtime", "runtime_noargs", "runtime_raise") else "fault_include"
+            return ("fault", lab, INC_FILES[how][0] if how in ("syntax", "runtime", "runtime_noargs", "runtime_raise") else "COND")
         if s["t"] == "py":
             return ("fault", "fault_syntax_error" if s["code"] in ("def (:", "x = [") else "fault_python_error", "COND")
         # syntax errors anywhere make the whole file fail before anything runs
